@@ -430,12 +430,78 @@ def opVtfm (args : List String) : Option String := do
   | _ => none
 end TfmOps
 
+/-! ### C17 geometry (Float) -/
+section GeoOps
+open Arim.Geo Arim.Num
+
+def v3? (s : String) : Option (P3 Float) := do
+  match ← floatList? s with
+  | [x, y, z] => pure ⟨x, y, z⟩
+  | _ => none
+def m3? (s : String) : Option (M3 Float) := do
+  match ← floatList? s with
+  | [a, b, c, d, e, f, g, h, i] => pure ⟨⟨a, b, c⟩, ⟨d, e, f⟩, ⟨g, h, i⟩⟩
+  | _ => none
+def showV3 (v : P3 Float) : String := showFloats [v.x, v.y, v.z]
+def showM3 (m : M3 Float) : String := showFloats [m.r0.x, m.r0.y, m.r0.z, m.r1.x, m.r1.y, m.r1.z, m.r2.x, m.r2.y, m.r2.z]
+def optF? (s : String) : Option (Option Float) := if s == "-" then some none else (float? s).map some
+def natToF (n : Nat) : Float := n.toFloat
+def floatCeil (x : Float) : Int := -(floatFloor (-x))
+
+def opGeo (args : List String) : Option String := do
+  match args with
+  | ["togcs", c, b, o] => let c ← v3? c; let b ← m3? b; let o ← v3? o; pure (showV3 (toGcs c b o))
+  | ["fromgcs", c, b, o] => let c ← v3? c; let b ← m3? b; let o ← v3? o; pure (showV3 (fromGcs c b o))
+  | ["rotate", c, r, o] =>
+    let c ← v3? c; let r ← m3? r
+    let o ← (if o == "-" then some none else (v3? o).map some)
+    pure (showV3 (rotate c r o))
+  | ["csfrom", o, i, j, p] => let o ← v3? o; let i ← v3? i; let j ← v3? j; let p ← v3? p
+                              pure (showV3 ((⟨o, i, j⟩ : CS Float).fromGcs p))
+  | ["csto", o, i, j, p] => let o ← v3? o; let i ← v3? i; let j ← v3? j; let p ← v3? p
+                            pure (showV3 ((⟨o, i, j⟩ : CS Float).toGcs p))
+  | ["csrot", o, i, j, r, c] =>
+    let o ← v3? o; let i ← v3? i; let j ← v3? j; let r ← m3? r
+    let c ← (if c == "-" then some none else (v3? c).map some)
+    let cs := (⟨o, i, j⟩ : CS Float).rotate r c
+    pure (showV3 cs.origin ++ "|" ++ showV3 cs.i ++ "|" ++ showV3 cs.j)
+  | ["rot", ax, a] =>
+    let a ← float? a
+    let (c, sn) := (Float.cos a, Float.sin a)
+    let m ← (match ax with | "x" => some (rotX 0 1 c sn) | "y" => some (rotY 0 1 c sn) | "z" => some (rotZ 0 1 c sn) | _ => none)
+    pure (showM3 m)
+  | ["ypr", y, p, r] =>
+    let y ← float? y; let p ← float? p; let r ← float? r
+    pure (showM3 (rotYpr 0 1 (Float.cos y) (Float.sin y) (Float.cos p) (Float.sin p) (Float.cos r) (Float.sin r)))
+  | ["iso3d", a, i, j, b, u, v] =>
+    let a ← v3? a; let i ← v3? i; let j ← v3? j; let b ← v3? b; let u ← v3? u; let v ← v3? v
+    let (m, pp) := isometry3d a i j b u v
+    pure (showM3 m ++ "|" ++ showV3 pp)
+  | ["grid", xmin, xmax, ymin, ymax, zmin, zmax, dx, dy, dz] =>
+    let xmin ← float? xmin; let xmax ← float? xmax; let ymin ← float? ymin; let ymax ← float? ymax
+    let zmin ← float? zmin; let zmax ← float? zmax; let dx ← float? dx; let dy ← float? dy; let dz ← float? dz
+    let ax := fun lo hi d => gridAxis natToF floatRound Float.abs lo hi d
+    pure (showFloats (ax xmin xmax dx) ++ "|" ++ showFloats (ax ymin ymax dy) ++ "|" ++ showFloats (ax zmin zmax dz))
+  | ["centred", size, pixel] =>
+    let size ← float? size; let pixel ← float? pixel
+    pure (toString (centredNum floatCeil 1.0 size pixel))
+  | ["order", nx, ny, nz] =>
+    let nx ← nat? nx; let ny ← nat? ny; let nz ← nat? nz
+    let pts := gridPoints ((List.range nx).map natToF) ((List.range ny).map natToF) ((List.range nz).map natToF)
+    pure (join (pts.map (fun p => s!"{p.x.toUInt64.toNat}:{p.y.toUInt64.toNat}:{p.z.toUInt64.toNat}")))
+  | ["rectbox", p, a, b, c, d, e, f] =>
+    let p ← v3? p; let a ← optF? a; let b ← optF? b; let c ← optF? c; let d ← optF? d; let e ← optF? e; let f ← optF? f
+    pure (showBool (inRectbox p a b c d e f))
+  | _ => none
+end GeoOps
+
 def route (op : String) (args : List String) : String :=
   let r : Option String :=
     match op with
     | "fermat" => opFermat args
     | "minplus" => opMinPlus args
     | "chunks" => opChunks args
+    | "geo" => opGeo args
     | "ctfm" => opCtfm args
     | "vtfm" => opVtfm args
     | "das" => opDas args
